@@ -13,7 +13,8 @@ META = {
         "fresh vector that is pushed as PushProgram::Block(_) right after the call; (R05.3) `return` on Close is control-dependent on the nested flag (top level falls through), the entry "
         "point passes true with the genome's own iterator and returns the filled vector, recursive calls pass false; (R05.4) the NumOpens table: DupBlock/When/Unless -> 1, IfElse -> 2, every "
         "other impl -> 0 (incl. the trait default), ExecInstruction forwards each variant to its own payload, PushInstruction forwards Exec and returns 0 otherwise; (R05.5) panic audit: the "
-        "translation has no may-panic site. NOT decided: native stack exhaustion from very deep nesting (recursion depth is a runtime quantity). (R05.6) Plushy::new collects the supplied genes in order, get_genes returns a copy of them, PushGene::from / PushProgram::from wrap the instruction they are given."),
+        "translation has no may-panic site. R05.1-R05.3 are stated in three alternative formulations (caller-supplied output vector; returned vector; a translation split into "
+        "sequence-parser / emitter / block-parser functions whose roles are read off their parameter and result types), any one of which must hold. NOT decided: native stack exhaustion from very deep nesting (recursion depth is a runtime quantity). (R05.6) Plushy::new collects the supplied genes in order, get_genes returns a copy of them, PushGene::from / PushProgram::from wrap the instruction they are given."),
     "rules": {
         "R05.1": "each gene is appended exactly once, in order, before recursion; Close appends nothing",
         "R05.2": "exactly num_opens() recursive parses per instruction, each result appended as Block immediately",
@@ -273,12 +274,339 @@ def parser_returning(ctx):
     ctx.check(ok, "R05.3", "From<Plushy>/parse(true,genome.into_iter(),fresh)-returns-that-vec", short(ps[0].ret) if ps else "-", f.at())
 
 
+FORBIDDEN = ("Clone::clone", "Vec::insert", "Vec::swap", "[T]::reverse", "[T]::swap", "Vec::remove", "Vec::pop", "Vec::truncate", "Vec::clear", "[T]::sort", "Vec::dedup",
+             "Vec::drain", "Vec::swap_remove", "Vec::retain", "[T]::rotate_left", "[T]::rotate_right", "Iterator::rev", "Iterator::skip", "Iterator::filter", "Iterator::step_by")
+GROW = ("Vec::push", "Vec::insert", "Vec::extend", "Extend::extend", "Vec::append", "Vec::extend_from_slice")
+VEC_PROGRAM = "std::vec::Vec<push::push_vm::program::PushProgram>"
+
+
+def parser_cluster(ctx):
+    """the entry point and every function of push::push_vm::program it (transitively) calls: the translation's own code"""
+    from . import ckit as K
+    F = ctx.F
+    entry = ctx.trait_fn("std::convert::From::from", VEC_PROGRAM)
+    seen, todo = [entry.id], [entry.id]
+    while todo:
+        fid = todo.pop()
+        for p in K.live(ctx.cpaths(F.fns[fid])):
+            for c in p.calls():
+                g = c[1]
+                if g in F.fns and g.startswith("push::push_vm::program::") and not F.fns[g].is_closure and g not in seen:
+                    seen.append(g)
+                    todo.append(g)
+    return entry, seen
+
+
+def parser_roles(ctx):
+    """The same clauses for a translation spread over several functions.  Every function of the translation is given a role
+    by its parameter and result types: a *sequence parser* reads genes from the shared cursor in a loop (optionally told by
+    a bool whether it is the top level; it fills a `&mut Vec<PushProgram>` it was handed, or returns its own vector, or
+    returns it wrapped as `PushProgram::Block`), an *emitter* takes one instruction and appends it followed by its blocks.
+    R05.1: the cursor is only ever advanced by `next()` (one site per sequence parser) or handed on to another function of
+    the translation; an Instruction gene is appended exactly once to the current output before anything else is read; a
+    Close appends nothing.  R05.2: after the instruction exactly num_opens(that instruction) blocks are parsed, each by a
+    sequence parser in nested mode on the same cursor with a fresh vector, and appended as Block right away.
+    R05.3: a nested sequence ends at Close or exhaustion, the top-level sequence only at exhaustion (Close ignored); the
+    entry point runs the top-level sequence over the genome's own iterator and returns its vector."""
+    from . import ckit as K
+    F = ctx.F
+    entry, cluster = parser_cluster(ctx)
+    adt = F.adts.get("push::genome::plushy::PushGene")
+    vidx = {v["name"]: v["discr"] for v in adt["variants"]} if adt else {}
+    ctx.check(adt is not None and sorted(vidx) == ["Close", "Instruction"], "R05.1", "PushGene-variants-all-classified", str(sorted(vidx)))
+    if sorted(vidx) != ["Close", "Instruction"]:
+        return
+
+    def is_vec_program(ty):
+        return ty.get("path") == "std::vec::Vec" and (ty.get("args") or [{}])[0].get("path") == "push::push_vm::program::PushProgram"
+
+    roles = {}
+    for fid in cluster:
+        f = F.fns[fid]
+        loc, argc = f.j["locals"], f.j["argc"]
+        r = {"flag": None, "cursor": None, "out": None, "instr": None, "fid": fid, "entry": fid == entry.id}
+        ok = True
+        if fid != entry.id:
+            for i in range(1, argc + 1):
+                ty = loc[i]["ty"]
+                if ty.get("k") == "prim" and ty.get("s") == "bool":
+                    slot = "flag"
+                elif ty.get("k") == "refmut" and is_vec_program(ty.get("of") or {}):
+                    slot = "out"
+                elif ty.get("k") == "refmut":
+                    slot = "cursor"
+                elif ty.get("path") == "push::instruction::PushInstruction":
+                    slot = "instr"
+                else:
+                    ok = False
+                    break
+                if r[slot] is not None:
+                    ok = False
+                    break
+                r[slot] = i
+            ok = ok and r["cursor"] is not None
+        rt = loc[0]["ty"]
+        r["ret"] = "unit" if rt.get("s") == "()" else "vec" if is_vec_program(rt) else "block" if rt.get("path") == "push::push_vm::program::PushProgram" else None
+        ok = ok and r["ret"] is not None and ((r["ret"] == "unit") == (r["out"] is not None)) and (r["instr"] is None or (r["ret"] == "unit" and r["flag"] is None))
+        ctx.check(ok, "R05.1", "translation-function-has-a-role/" + fid.rsplit("::", 1)[-1], "cursor=%s out=%s flag=%s instruction=%s returns=%s" % (r["cursor"], r["out"], r["flag"], r["instr"], r["ret"]), f.at(),
+                  bad_detail="a function of the translation whose parameters are not (flag?, instruction?, the gene cursor, the output vector?): " + (f.j.get("sig") or ""))
+        if ok:
+            roles[fid] = r
+    if len(roles) != len(cluster):
+        return
+    at0 = entry.at()
+    fresh_vec = lambda e: callee_is(K.strip(e, calls=()), "Vec::new", "Vec::with_capacity", "Default::default")
+    count = {"instr": 0, "close": 0, "block": 0, "next_sites": {}}
+    modes = {}
+
+    def cursor_pred(r):
+        if r["entry"]:
+            return lambda e: match(e, Through(Call("IntoIterator::into_iter", Param(1), nargs=1)))
+        return lambda e: K.strip(e, calls=()) == ("param", r["cursor"])
+
+    def variant_of(p, gene):
+        for c in p.conds:
+            if c[0] == ("discr", gene):
+                v = c[1]
+                if isinstance(v, tuple) and v and v[0] == "not":
+                    left = [n for n, d in vidx.items() if d not in v[1]]
+                    return left[0] if len(left) == 1 else None
+                for n, d in vidx.items():
+                    if d == v:
+                        return n
+        return None
+
+    def mode_of(fid):
+        """'flag' (told by the bool parameter), else 'nested' / 'top' by what every Close arm does; None when mixed or no Close arm"""
+        if fid in modes:
+            return modes[fid]
+        r = roles[fid]
+        m = None
+        if r["instr"] is None:
+            if r["flag"] is not None:
+                m = "flag"
+            else:
+                isc = cursor_pred(r)
+                kinds = set()
+                for p in K.live(ctx.cpaths(F.fns[fid])):
+                    nx = [c for c in p.calls() if callee_is(c, "Iterator::next") and isc(c[3][0])]
+                    if len(nx) == 1 and variant_of(p, ("field", nx[0], 0, "Some")) == "Close":
+                        kinds.add("nested" if p.end == "return" else "top")
+                m = list(kinds)[0] if len(kinds) == 1 else None
+        modes[fid] = m
+        return m
+
+    def nested_call(c, isc):
+        """c calls a sequence parser of the translation in nested mode on the cursor accepted by isc"""
+        r = roles.get(c[1])
+        if r is None or r["instr"] is not None or len(c[3]) != F.fns[c[1]].j["argc"]:
+            return None
+        if not isc(c[3][r["cursor"] - 1]):
+            return None
+        if r["flag"] is not None:
+            if not match(c[3][r["flag"] - 1], Const(0)):
+                return None
+        elif mode_of(c[1]) != "nested":
+            return None
+        return r
+
+    def emit(p, r, instr, isc, to_out, label, at):
+        """the path appends `instr` once and, per iteration of the 0..num_opens(instr) loop, one nested block; returns True when it did"""
+        cs = p.calls()
+        pushes = [c for c in cs if callee_is(c, *GROW)]
+        cl = [c for c in cs if c[1] in roles]
+        emitters = [c for c in cl if roles[c[1]]["instr"] is not None]
+        if emitters:
+            e = emitters[0]
+            er = roles[e[1]]
+            ok = len(emitters) == 1 and len(cl) == 1 and not pushes and len(e[3]) == 3 and K.strip(e[3][er["instr"] - 1], calls=()) == instr and \
+                isc(e[3][er["cursor"] - 1]) and to_out(e[3][er["out"] - 1])
+            ctx.check(ok, "R05.1", "Instruction/handed-once-to-the-emitter-with-this-cursor-and-output/" + label, short(e, 4), at,
+                      bad_detail="the instruction gene must be handed, with the shared cursor and the current output, to the function that appends it and its blocks - once, and nothing else appended here; calls: " + ", ".join(short(c, 5) for c in cl + pushes))
+            return ok
+        ip = [c for c in pushes if callee_is(c, "Vec::push") and match(c[3][1], Agg("PushProgram::Instruction", lambda x: K.strip(x, calls=()) == instr))]
+        others = [c for c in pushes if c not in ip]
+        ok = len(ip) == 1 and to_out(ip[0][3][0]) and cs.index(ip[0]) < min([cs.index(c) for c in cl + others], default=10 ** 9)
+        ctx.check(ok, "R05.1", "Instruction/appended-once-to-current-output-before-recursion/" + label, ", ".join(short(c, 4) for c in pushes), at,
+                  bad_detail="the instruction gene must be pushed exactly once as PushProgram::Instruction(gene) onto the current output before any recursive parse; pushes: " + ", ".join(short(c, 5) for c in pushes))
+        if not ok:
+            return False
+        n_of = Call("NumOpens::num_opens", Through(lambda x: K.strip(x, calls=()) == instr), nargs=1)
+        count_range = Agg("Range::Range", Const(0), n_of)
+
+        def block_value(v, before):
+            """the appended value is one nested block parsed from the shared cursor"""
+            v = K.strip(v, calls=())
+            if v[0] == "call" and v[1] in roles:
+                rr = nested_call(v, isc)
+                return rr is not None and rr["ret"] == "block"
+            if match(v, Agg("PushProgram::Block", ANY)):
+                inner = K.strip(v[3][0], calls=())
+                if inner[0] == "call" and inner[1] in roles:
+                    rr = nested_call(inner, isc)
+                    return rr is not None and rr["ret"] == "vec"
+                if fresh_vec(inner) and before is not None and before[1] in roles:
+                    rr = nested_call(before, isc)
+                    return rr is not None and rr["ret"] == "unit" and K.strip(before[3][rr["out"] - 1], calls=()) == inner
+            return False
+        ext = [c for c in others if callee_is(c, "Extend::extend", "Vec::extend")]
+        if ext:
+            b = {}
+            okl = len(others) == 1 and not cl and to_out(ext[0][3][0]) and (
+                match(ext[0][3][1], Through(Call("Iterator::map", count_range, Bind("clo"), nargs=2)), b) or
+                match(ext[0][3][1], Through(Call("Iterator::take", Call("iter::repeat_with", Bind("clo"), nargs=1), n_of, nargs=2)), b)) and \
+                b["clo"][0] == "agg" and b["clo"][1] == "closure"
+            ctx.check(okl, "R05.2", "blocks/loop-over-0..num_opens(this-instruction)/" + label, short(ext[0], 5), at,
+                      bad_detail="the blocks must be produced by 0..num_opens() of the instruction just appended; extracted " + short(ext[0], 7))
+            if okl:
+                count["block"] += 1
+                cps = [q for q in (closure_paths(ctx, b["clo"], canon=True) or []) if q.end != "unreachable"]
+                okb = len(cps) == 1 and cps[0].end == "return" and not cps[0].conds
+                if okb:
+                    qcl = [c for c in cps[0].calls() if c[1] in roles]
+                    okb = len(qcl) == 1 and not [c for c in cps[0].calls() if callee_is(c, *GROW)] and block_value(cps[0].ret, qcl[0])
+                ctx.check(okb, "R05.2", "blocks/recursive-parse(false,same-iterator,fresh-vec)-then-append-Block", short(cps[0].ret, 5) if cps else "-", at,
+                          bad_detail="per opened block: one nested parse from the shared cursor, appended as Block in order; extracted " + "; ".join(short(q.ret, 6) for q in cps))
+                return okb
+            return False
+        lp = [c for c in p.conds if c[0][0] == "discr" and callee_is(c[0][1], "Iterator::next") and
+              (match(c[0][1][3][0], Through(Call("IntoIterator::into_iter", count_range, nargs=1))) or match(c[0][1][3][0], Through(count_range)))]
+        okl = len(lp) == 1
+        ctx.check(okl, "R05.2", "blocks/loop-over-0..num_opens(this-instruction)/" + label, cond_str(p)[-220:], at,
+                  bad_detail="the block loop must iterate 0..num_opens() of the instruction just appended; conditions: " + cond_str(p)[-300:])
+        if not okl:
+            return False
+        if K.discr_is(p, lambda o: o == lp[0][0][1], 1):
+            count["block"] += 1
+            okb = len(others) == 1 and callee_is(others[0], "Vec::push") and to_out(others[0][3][0]) and len(cl) == 1 and \
+                block_value(others[0][3][1], cl[0]) and cs.index(cl[0]) < cs.index(others[0]) and \
+                not [c for c in cs[cs.index(cl[0]) + 1:cs.index(others[0])] if not fresh_vec(c) and not K.strip(c, calls=()) == cl[0]] and p.end.startswith("loop:")
+            ctx.check(okb, "R05.2", "blocks/recursive-parse(false,same-iterator,fresh-vec)-then-append-Block", ", ".join(short(c, 4) for c in cl + others), at,
+                      bad_detail="per opened block: exactly one nested parse from the shared cursor (fresh vector), appended to the current output as Block right after it; extracted " + ", ".join(short(c, 5) for c in cl + others))
+            return okb
+        okn = not others and not cl
+        ctx.check(okn, "R05.2", "blocks/nothing-appended-after-the-last-block/" + label, cond_str(p)[-120:], at,
+                  bad_detail="after the 0..num_opens() loop is exhausted nothing more may be parsed or appended for this instruction: " + ", ".join(short(c, 5) for c in cl + others))
+        return okn
+
+    for fid in cluster:
+        r = roles[fid]
+        f = F.fns[fid]
+        at = f.at()
+        name = fid.rsplit("::", 1)[-1] if not r["entry"] else "From<Plushy>"
+        paths = K.live(ctx.cpaths(f))
+        isc = cursor_pred(r)
+        for p in paths:
+            bad = [c for c in p.calls() if callee_is(c, *FORBIDDEN)]
+            if bad:
+                ctx.bad("R05.1", "no-clone/insert/reorder", "forbidden call(s): " + ", ".join(short(c, 3) for c in bad), at)
+            # the cursor is advanced by next() or handed on to the translation's own functions, nothing else touches it
+            for c in p.calls():
+                if any(isc(a) for a in c[3]) and not callee_is(c, "Iterator::next") and c[1] not in roles:
+                    ctx.bad("R05.1", "single-cursor/only-next()-advances-the-shared-iterator", "the gene cursor is passed to " + short(c, 4), at)
+        nexts = {c[4] for p in paths for c in p.calls() if callee_is(c, "Iterator::next") and isc(c[3][0])}
+        if r["instr"] is not None:
+            # ---- emitter ------------------------------------------------------------------------------
+            ctx.check(not nexts, "R05.1", "emitter-reads-no-gene-itself/" + name, "%d next() site(s)" % len(nexts), at)
+            to_out = lambda e, r=r: K.strip(e, calls=()) == ("param", r["out"])
+            for i, p in enumerate(paths):
+                if emit(p, r, ("param", r["instr"]), isc, to_out, "%s/%d" % (name, i), at):
+                    count["instr"] += 1
+                ctx.check(p.end == "return" or p.end.startswith("loop:"), "R05.2", "Instruction/arm-continues(no-early-exit-from-block-loop)/%s/%d" % (name, i), p.end, at)
+            continue
+        delegates = [c for p in paths for c in p.calls() if c[1] in roles]
+        if r["entry"] and not nexts:
+            # ---- entry point that hands the genome's iterator to the top-level sequence parser --------------------
+            ps = K.returning(paths)
+            ok = len(ps) == 1 and len(paths) == 1
+            if ok:
+                cl = [c for c in ps[0].calls() if c[1] in roles]
+                ok = len(cl) == 1 and roles[cl[0][1]]["instr"] is None and len(cl[0][3]) == F.fns[cl[0][1]].j["argc"]
+                if ok:
+                    rr = roles[cl[0][1]]
+                    ok = isc(cl[0][3][rr["cursor"] - 1]) and (match(cl[0][3][rr["flag"] - 1], Const(1)) if rr["flag"] is not None else mode_of(cl[0][1]) == "top")
+                    if rr["ret"] == "unit":
+                        ok = ok and fresh_vec(cl[0][3][rr["out"] - 1]) and K.strip(ps[0].ret, calls=()) == K.strip(cl[0][3][rr["out"] - 1], calls=())
+                    else:
+                        ok = ok and rr["ret"] == "vec" and K.strip(ps[0].ret, calls=()) == cl[0]
+                    ok = ok and not [c for c in ps[0].calls() if callee_is(c, *GROW)]
+            ctx.check(ok, "R05.3", "From<Plushy>/parse(true,genome.into_iter(),fresh)-returns-that-vec", short(ps[0].ret) if ps else "-", at)
+            continue
+        # ---- sequence parser ---------------------------------------------------------------------------
+        ctx.check(len(nexts) == 1, "R05.1", "single-cursor/one-next()-site-on-the-shared-iterator", "%d site(s) in %s" % (len(nexts), name), at)
+        if r["out"] is not None:
+            OUT = ("param", r["out"])
+        else:
+            outs = {K.strip(c[3][0], calls=()) for p in paths for c in p.calls() if callee_is(c, *GROW) and fresh_vec(c[3][0])} | \
+                   {K.strip(c[3][roles[c[1]]["out"] - 1], calls=()) for c in delegates if roles[c[1]]["out"] is not None and len(c[3]) == F.fns[c[1]].j["argc"] and fresh_vec(c[3][roles[c[1]]["out"] - 1])}
+            rets = {K.strip(p.ret[3][0] if (r["ret"] == "block" and match(p.ret, Agg("PushProgram::Block", ANY))) else p.ret, calls=()) for p in paths if p.end == "return" and p.ret is not None}
+            outs |= {x for x in rets if fresh_vec(x)}
+            ctx.check(len(outs) == 1, "R05.1", "one-output-vector/created-empty-in-this-call", "%d candidate(s) in %s" % (len(outs), name), at)
+            if len(outs) != 1:
+                continue
+            OUT = list(outs)[0]
+        to_out = lambda e, OUT=OUT: K.strip(e, calls=()) == OUT
+        mode = mode_of(fid)
+        if r["entry"]:
+            ctx.check(mode == "top", "R05.3", "From<Plushy>/parse(true,genome.into_iter(),fresh)-returns-that-vec", "the entry point's own loop is the top-level sequence", at,
+                      bad_detail="the entry point's gene loop must ignore Close genes and end only when the genome is exhausted")
+
+        def returns_out(p, r=r, to_out=to_out):
+            if p.end != "return":
+                return False
+            if r["ret"] == "unit":
+                return True
+            if r["ret"] == "vec":
+                return p.ret is not None and to_out(p.ret)
+            return p.ret is not None and match(p.ret, Agg("PushProgram::Block", to_out))
+        for i, p in enumerate(paths):
+            nx = [c for c in p.calls() if callee_is(c, "Iterator::next") and isc(c[3][0])]
+            if len(nx) != 1:
+                ctx.bad("R05.1", "single-cursor/one-gene-per-iteration", "%d reads of the shared iterator on one path of %s: [%s]" % (len(nx), name, cond_str(p)[:200]), at)
+                continue
+            pushes = [c for c in p.calls() if callee_is(c, *GROW)]
+            cl = [c for c in p.calls() if c[1] in roles]
+            if p.end == "return" and not returns_out(p):
+                ctx.bad("R05.3", "returns-the-output-vector", "a return path of %s yields %s, not the vector the genes were appended to" % (name, short(p.ret, 4)), at)
+            if K.discr_is(p, lambda o: o == nx[0], 0):
+                ctx.check(returns_out(p) and not pushes and not cl, "R05.3", "genes-exhausted->return(open-blocks-closed-here)", cond_str(p), at)
+                continue
+            gene = ("field", nx[0], 0, "Some")
+            v = variant_of(p, gene)
+            if v == "Close":
+                count["close"] += 1
+                flag = [c for c in p.conds if r["flag"] is not None and c[0] == ("param", r["flag"])]
+                nested = (bool(flag) and flag[0][1] == 0) if mode == "flag" else mode == "nested"
+                top = (bool(flag) and flag[0][1] != 0) if mode == "flag" else mode == "top"
+                ctx.check(not pushes and not cl, "R05.1", "Close/appends-nothing/%s" % ("nested" if nested else "top-level"), cond_str(p), at)
+                if p.end == "return":
+                    ctx.check(nested, "R05.3", "Close/returns-only-when-nested", cond_str(p), at,
+                              bad_detail="a Close gene returns from the parser on a path where the sequence is not known to be a nested one: [%s]" % cond_str(p))
+                else:
+                    ctx.check(p.end.startswith("loop:") and top, "R05.3", "Close/ignored-at-top-level(continue-with-next-gene)", cond_str(p), at)
+            elif v == "Instruction":
+                if emit(p, r, ("field", gene, 0, "Instruction"), isc, to_out, "%s/%d" % (name, i), at):
+                    count["instr"] += 1
+                ctx.check(p.end.startswith("loop:"), "R05.2", "Instruction/arm-continues(no-early-exit-from-block-loop)/%s/%d" % (name, i), p.end, at,
+                          bad_detail="a path through the Instruction arm leaves the parser (%s) before all of its num_opens() blocks were produced / the remaining genes were read: [%s]" % (p.end, cond_str(p)[-300:]))
+            else:
+                ctx.bad("R05.1", "unclassified-gene-variant/-", "a path of %s reads a gene without classifying it as Instruction or Close: [%s]" % (name, cond_str(p)[:200]), at)
+    # every sequence parser is used: nested ones for blocks, the top-level one by the entry point (a dead one proves nothing)
+    ctx.floor("R05.1", count["instr"], 1, "Instruction-arm paths")
+    ctx.floor("R05.3", count["close"], 2, "Close-arm paths")
+    ctx.floor("R05.2", count["block"], 1, "block-parsing paths")
+    seqs = [fid for fid in cluster if roles[fid]["instr"] is None and not (roles[fid]["entry"] and mode_of(fid) is None and not [1 for p in K.live(ctx.cpaths(F.fns[fid])) for c in p.calls() if callee_is(c, "Iterator::next")])]
+    have = {("flag" if mode_of(fid) == "flag" else mode_of(fid)) for fid in seqs}
+    ctx.check("flag" in have or {"top", "nested"} <= have, "R05.3", "both-a-top-level-and-a-nested-sequence-exist", str(sorted(str(x) for x in have)))
+
+
+
 def check(ctx):
     from .ctors import check_table
     check_table(ctx, "C05", "R05.6")
     F = ctx.F
     from . import ckit as K
-    K.either(ctx, parser_legacy, parser_returning)
+    K.either(ctx, parser_legacy, lambda c: K.either(c, parser_returning, parser_roles))
     FROM_ID = ctx.trait_fn("std::convert::From::from", "std::vec::Vec<push::push_vm::program::PushProgram>").id
     f = ctx.fn("<push::genome::plushy::Plushy as std::iter::IntoIterator>::into_iter")
     ps = return_paths(ctx.paths(f))
@@ -344,7 +672,8 @@ def check(ctx):
 
     # ---- R05.5 -------------------------------------------------------------------------
     cg = CallGraph(F)
-    scope = cg.reach([FROM_ID, PARSE]) | {fn.id for fn in F.fns.values() if fn.trait_item == T + "::num_opens"} | {T + "::num_opens"}
+    _, cluster = parser_cluster(ctx)
+    scope = cg.reach(list(cluster)) | {fn.id for fn in F.fns.values() if fn.trait_item == T + "::num_opens"} | {T + "::num_opens"}
     sites = audit_panics(ctx, "R05.5", scope, [], floor=0)
-    pushes_seen = sum(1 for b in F.fns[PARSE].blocks if b["term"]["k"] == "call" and (path_ends(b["term"].get("fn") or "", "Vec::push") or path_ends(b["term"].get("fn") or "", "Extend::extend")))
+    pushes_seen = sum(1 for fid in cluster for b in F.fns[fid].blocks if b["term"]["k"] == "call" and (path_ends(b["term"].get("fn") or "", "Vec::push") or path_ends(b["term"].get("fn") or "", "Extend::extend")))
     ctx.check(pushes_seen >= 2 and len(scope) >= 9, "R05.5", "positive-control/audit-saw-the-translation", "%d functions in scope, %d append sites in the parser, %d may-panic sites" % (len(scope), pushes_seen, len(sites)))
